@@ -925,6 +925,9 @@ func (d *driver) violation(what, detail string) {
 
 // Run executes one case on the real implementation
 func Run(c *Case) (res *Result) {
+	if c.Free != nil && c.Free.Scn == "handoff" {
+		return RunHandoff(c)
+	}
 	if c.Free != nil && c.Free.Scn != "" {
 		return RunLease(c)
 	}
